@@ -14,6 +14,8 @@ type Record struct {
 	T   int    `json:"t"`   // 1 stdout, 2 stderr
 	TS  int64  `json:"ts"`  // unix nanoseconds
 	Msg []byte `json:"msg"` // message bytes (base64 in JSON)
+	// Off, if non-zero, renders the timestamp with this UTC offset (seconds east).
+	Off int `json:"off,omitempty"`
 }
 
 // Container is one container of the simulated daemon's inventory.
@@ -57,7 +59,7 @@ func (c Container) Clone() Container {
 	}
 	o.Log = make([]Record, len(c.Log))
 	for i, r := range c.Log {
-		o.Log[i] = Record{T: r.T, TS: r.TS, Msg: append([]byte(nil), r.Msg...)}
+		o.Log[i] = Record{T: r.T, TS: r.TS, Msg: append([]byte(nil), r.Msg...), Off: r.Off}
 	}
 	return o
 }
@@ -81,6 +83,14 @@ func (c Container) Name() string {
 }
 
 const fixed9Layout = "2006-01-02T15:04:05.000000000Z07:00"
+
+// FormatRec renders the timestamp of a record.
+func (c Container) FormatRec(r Record) string {
+	if r.Off != 0 {
+		return time.Unix(0, r.TS).In(time.FixedZone("", r.Off)).Format(fixed9Layout)
+	}
+	return c.FormatTS(r.TS)
+}
 
 // FormatTS renders a record timestamp the way the daemon does.
 func (c Container) FormatTS(ns int64) string {
@@ -121,7 +131,7 @@ func (c Container) EncodeFrame(r Record, timestamps bool, kind string) []byte {
 		payload = []byte("error from daemon in stream: Error grabbing logs: invalid character 'x' looking for beginning of value")
 	case FrameSysLine:
 		typ = 3
-		payload = append([]byte(c.FormatTS(r.TS)+" "), r.Msg...)
+		payload = append([]byte(c.FormatRec(r)+" "), r.Msg...)
 	case FrameBadTimestamp:
 		payload = append([]byte("20x3-13-45T99:99:99Z "), r.Msg...)
 	case FrameNoSpace:
@@ -130,7 +140,7 @@ func (c Container) EncodeFrame(r Record, timestamps bool, kind string) []byte {
 		payload = nil
 	default:
 		if timestamps {
-			payload = append([]byte(c.FormatTS(r.TS)+" "), r.Msg...)
+			payload = append([]byte(c.FormatRec(r)+" "), r.Msg...)
 		} else {
 			payload = append([]byte(nil), r.Msg...)
 		}
@@ -166,9 +176,14 @@ func parseDaemonTime(s string) (ns int64, set bool, err error) {
 			return 0, false, fmt.Errorf("invalid timestamp %q", s)
 		}
 	}
-	const maxSec = 9_000_000_000 // beyond year 2255: would overflow int64 nanoseconds
-	if sec > maxSec || sec < -maxSec {
-		return 0, false, fmt.Errorf("timestamp %q out of range", s)
+	// The daemon accepts any int64 second count; instants beyond what int64
+	// nanoseconds can hold saturate (no record of any world lies out there).
+	const maxSec = 9_223_372_035
+	if sec > maxSec {
+		return 1<<63 - 1, true, nil
+	}
+	if sec < -maxSec {
+		return -1 << 63, true, nil
 	}
 	return sec*1_000_000_000 + nanos, true, nil
 }
